@@ -39,18 +39,21 @@ def _max_violation(
     problem: Problem, variables: list, values: dict[str, float], lp_data: Any = None
 ) -> float:
     """Largest violation of the problem's constraints and bounds at `values`
-    beyond the tolerance atol + rtol * max(1, |value|) + 1e-12 * (|a|.|x| + |b|)
+    beyond the tolerance atol + rtol * max(1, |value|) + row_rtol * (|a|.|x| + |b|)
     (0.0 if there is none)."""
     import numpy as np
 
     atol = rtol = 1e-6
     # A residual is computed from terms of size |a_j x_j| and |b|: whatever is
     # below their rounding noise is not a violation (rows of magnitude 1e10 and
-    # more cannot be met to 1e-6 in double precision). HiGHS optima stay within
-    # a few 1e-15 of the row magnitude; 1e-12 leaves room for that and no more:
-    # an entry HiGHS dropped (|a_ij| < 1e-9) next to a large right-hand side is
-    # worth ~1e-9 of the row and must still be seen.
-    row_rtol = 1e-12
+    # more cannot be met to 1e-6 in double precision). HiGHS solves rows to
+    # ~1e-7 of their scaled size, which on LPs with a hundred columns leaves
+    # residuals of up to ~1e-10 of the row magnitude: 1e-9 of it is allowed.
+    # A row holding an entry that HiGHS ignores (0 < |a_ij| <= 1e-9) gets 1e-12
+    # only: next to a large right-hand side the dropped entry is itself worth
+    # ~1e-9 of the row and must still be seen.
+    row_rtol = 1e-9
+    dropped_entry_rtol = 1e-12
     x_abs = np.abs(np.array([values[v.name] for v in variables], dtype=float))
     if lp_data is not None:
         # (only while the extracted rows correspond one-to-one to the constraints)
@@ -76,6 +79,8 @@ def _max_violation(
                 row, rhs = lp_data.A_ub[i_ub], lp_data.b_ub[i_ub]
                 i_ub += 1
             magnitude = float(np.abs(row) @ x_abs + abs(rhs))
+            if np.any((row != 0) & (np.abs(row) <= 1e-9)):
+                magnitude *= dropped_entry_rtol / row_rtol
         if constraint.sense == "<=":
             violation = value
         elif constraint.sense == ">=":
